@@ -503,7 +503,7 @@ func r096(c *Ctx, rule string) {
 	if d := c.deployShape(rule); d != nil {
 		for _, cs := range callsTo(d.fn, c.method("LoadBalancer", "Dispose")) {
 			recv := cs.common().Args[0]
-			c.ob(rule, "deploy/disposes-only-new-or-replaced", cs.pos(), recv == ssa.Value(d.newLB) || recv == d.replaced, true, "")
+			c.ob(rule, "deploy/disposes-only-new-or-replaced", cs.pos(), sameBalancer(recv, d.newLB) || recv == d.replaced, true, "")
 			if recv == d.replaced {
 				isNil, _ := nilKnowledge(cs.instr, sameAs(d.instErr))
 				c.ob(rule, "deploy/replaced-balancer-disposed-only-after-successful-install", cs.pos(), isNil && dominates(d.install, cs.instr), true, "when the install failed the replaced balancer is put back and is live again: disposing it would stop the probes of the targets that keep serving")
